@@ -12,6 +12,7 @@ import (
 	"os/signal"
 	"strings"
 	"sync"
+	"sync/atomic"
 	"syscall"
 	"time"
 
@@ -179,9 +180,9 @@ func runTermScenario(s termScenario, callers []string) termResult {
 	// injected panics
 	switch s.Cause {
 	case "panic-init":
-		ctl.panicOn["init"] = true
+		ctl.panicOn.set("init")
 	case "panic-update":
-		ctl.panicOn["update:u9.9"] = true
+		ctl.panicOn.set("update:u9.9")
 	case "panic-view":
 		// armed later (the first View must succeed so the program is up)
 	}
@@ -382,7 +383,7 @@ func runTermScenario(s termScenario, callers []string) termResult {
 	case "panic-update":
 		causeDone = send(userMsg{9, 9})
 	case "panic-view":
-		ctl.panicOn["view"] = true
+		ctl.panicOn.set("view")
 		causeDone = send(userMsg{9, 8})
 	case "panic-cmd":
 		causeDone = send(userMsg{8, 1})
@@ -455,7 +456,7 @@ func runTermScenario(s termScenario, callers []string) termResult {
 }
 
 func atomicArm(g *gate) {
-	g.armed = 1
+	atomic.StoreInt32(&g.armed, 1)
 }
 
 func termMatrix(thorough bool, r *rng) []termScenario {
@@ -768,7 +769,7 @@ func uncaughtPanic(out *scenOut) {
 	ctl := newRecCtl()
 	g := newGate(true)
 	ctl.gates["update:u7.0"] = g
-	ctl.panicOn["update:u7.0"] = true
+	ctl.panicOn.set("update:u7.0")
 	p := tea.NewProgram(recModel{c: ctl}, tea.WithInput(nil), tea.WithOutput(&safeBuffer{}), tea.WithoutSignalHandler(), tea.WithoutCatchPanics())
 	runDone := make(chan struct{})
 	go func() {
